@@ -18,10 +18,10 @@ def main():
     for l in u.lost: print('LOST', l)
     try:
         sys.path.insert(0, os.path.join(os.path.dirname(os.path.abspath(__file__)), '..', 'bin'))
-        import importlib.machinery, importlib.util
-        ld = importlib.machinery.SourceFileLoader('vcheck', os.path.join(os.path.dirname(os.path.abspath(__file__)), '..', 'bin', 'check'))
-        spec = importlib.util.spec_from_loader('vcheck', ld); mod = importlib.util.module_from_spec(spec); ld.exec_module(mod)
-        for pr in mod.assumption_scan(u): print('INFRA(scan)', pr)
+        import importlib.machinery as _ilm, importlib.util as _ilu
+        ld = _ilm.SourceFileLoader('vcheck', os.path.join(os.path.dirname(os.path.abspath(__file__)), '..', 'bin', 'check'))
+        spec = _ilu.spec_from_loader('vcheck', ld); vmod = _ilu.module_from_spec(spec); ld.exec_module(vmod)
+        for pr in vmod.assumption_scan(u): print('INFRA(scan)', pr)
     except Exception as e:
         print('scan unavailable', e)
     for ob, rs in c['failed'].items():
